@@ -9,6 +9,7 @@ import Pog.Drv.Plan
 import Pog.Drv.Surface
 import Pog.Drv.Sinks
 import Pog.Drv.GenCode
+import Pog.Drv.Conv
 /-
   Line protocol: one JSON request per line on stdin, one JSON reply per line on stdout.
     request  {"f": <function>, "a": [<args>], "u": {<codepoint>: {"w":bool,"d":bool,"l":str,"U":str,"iu":bool}}}
@@ -28,7 +29,8 @@ def dispatchers : List Dispatch := [
   dispatchPlan,
   dispatchSurface,
   dispatchSinks,
-  dispatchGenCode
+  dispatchGenCode,
+  dispatchConv
 ]
 
 def dispatch (f : String) (a : Array Json) (u : UInfo) : Except String Json :=
